@@ -7,7 +7,8 @@ of the current handle fail, and completes the command with GOOD or CHECK CONDITI
 The solver decides all equal/different relations between successive inodes."""
 MOD = "checks.c15"
 
-EVENTS = ["same/good", "same/check-condition", "replaced/close-ok", "replaced/close-fails", "absent"]
+EVENTS = ["same/good", "same/check-condition", "replaced/close-ok", "replaced/close-fails", "absent",
+          "replaced/reopen-refused-once"]
 
 
 class _Sc:
@@ -48,16 +49,36 @@ def h_history(ctx, k, detect, readwrite, finish):
         ev = ctx.choose("event%d" % t, EVENTS)
         live = E.handles[-1]
         sc.fail_next = (ev == 1)
-        replaced = ev in (2, 3)
+        raw = bool(ctx.choose("raw_sense%d" % t, ["no", "yes"])) if k <= 2 else False
+        replaced = ev in (2, 3, 5)
+        prev_ino = cur_ino
         if replaced:
             cur_ino = ctx.int("ino%d" % t, 12)
             E.cur_inode = cur_ino
             live.close_raises = (ev == 3)
+            if ev == 5:
+                E.open_error = PermissionError(13, "Permission denied (stub: node not ready yet)")
         elif ev == 4:
             E.cur_inode = None
         n_sent = len(E.sgio_calls)
-        st, r = ctx.attempt(dev.execute, _cmd(dev))
+        st, r = ctx.attempt(dev.execute, _cmd(dev), en_raw_sense=raw)
         sent = E.sgio_calls[n_sent:]
+        if ev == 5:
+            E.open_error = None
+            really_replaced = detect and bool(cur_ino != prev_ino)
+            if really_replaced:
+                # the re-open was refused once: the failure is reported and nothing goes through the stale handle;
+                # the next execute (node unchanged) must again use a handle on the node that exists now
+                ctx.check("step %d: a refused re-open is reported, nothing is sent" % t, ctx.oracle(st == "exc" and not sent), repr(r))
+                n2 = len(E.sgio_calls)
+                sc.fail_next = False
+                st2, r2 = ctx.attempt(dev.execute, _cmd(dev))
+                for call in E.sgio_calls[n2:]:
+                    ctx.check("step %d: after a refused re-open no command goes through the stale handle" % t,
+                              (call.file.inode == ctx.oracle(E.cur_inode)) & (call.file.close_calls == 0))
+                live.close_raises = False
+                prev_ino = cur_ino
+                continue
         ctx.check("step %d: at most one ioctl per execute" % t, len(sent) <= 1)
         if detect:
             if ev == 4:
@@ -80,7 +101,7 @@ def h_history(ctx, k, detect, readwrite, finish):
                 ctx.check("step %d: success means the command was sent" % t, len(sent) == ctx.oracle(1))
             if ev in (0, 2) and not (ev == 2 and live.close_raises):
                 ctx.check("step %d: a GOOD command on a present node completes" % t, ctx.oracle(st == "ok"), repr(r))
-            if ev == 1:
+            if ev == 1 and not raw:
                 ctx.check("step %d: CHECK CONDITION is raised" % t, st == "exc" and isinstance(r, dev.CheckCondition), repr(r))
         else:
             if ev == 4:
@@ -123,7 +144,8 @@ def h_history(ctx, k, detect, readwrite, finish):
     ctx.check("the live OS handle is released exactly once", live.close_calls == ctx.oracle(1))
     for h in E.handles:
         if h is not live:
-            ctx.check("no handle is leaked or double-closed", h.close_calls == 1 or not detect)
+            # (closing a superseded, already closed handle object again releases nothing twice: >= 1)
+            ctx.check("no superseded handle is leaked", h.close_calls >= 1 or not detect)
 
 
 def h_iscsi_release(ctx, finish):
